@@ -1,8 +1,121 @@
 """C11 - the JSON log is a complete, ordered transcript of shell I/O and connections."""
+import fcntl, json, os, re, select, signal, socket, ssl, struct, termios, time
 import brokerlib as B
 import c03
 import c04
 import vlib
+
+
+def log_session(binp, d, logf, lines):
+    """One run of the real program with -log under a pty: a /io shell attaches (real TLS), the operator enters [lines], the shell ends, Ctrl+D."""
+    os.makedirs(d, exist_ok=True)
+    argv = [binp, "-log", logf, "-listen-address", "127.0.0.1:0", "-tls-certificate-cache", os.path.join(d, "cert.txtar")]
+    env = dict(os.environ, HOME=d, XDG_CACHE_HOME=os.path.join(d, "xdg")); env.pop("CURLREVSHELL_LOG", None)
+    master, slave = os.openpty()
+    fcntl.ioctl(slave, termios.TIOCSWINSZ, struct.pack("HHHH", 40, 200, 0, 0))
+    pid = os.fork()
+    if pid == 0:
+        try:
+            os.setsid(); fcntl.ioctl(slave, termios.TIOCSCTTY, 0)
+            os.dup2(slave, 0); os.dup2(slave, 1); os.dup2(slave, 2); os.close(master); os.chdir(d)
+            os.execvpe(argv[0], argv, env)
+        finally:
+            os._exit(127)
+    out = b""
+    def pump(until=None, secs=5.0):
+        nonlocal out
+        t0 = time.time()
+        while time.time() - t0 < secs:
+            if until is not None and re.search(until, out):
+                return True
+            r, _, _ = select.select([master], [], [], 0.05)
+            if r:
+                try:
+                    out += os.read(master, 65536)
+                except OSError:
+                    return False
+        return until is None
+    got = b""
+    try:
+        if pump(rb"https://127\.0\.0\.1:(\d+)/c", 8):
+            port = int(re.search(rb"https://127\.0\.0\.1:(\d+)/c", out).group(1))
+            if lines:
+                ctx = ssl.create_default_context(); ctx.check_hostname = False; ctx.verify_mode = ssl.CERT_NONE
+                c = ctx.wrap_socket(socket.create_connection(("127.0.0.1", port), timeout=5))
+                c.sendall(b"POST /io HTTP/1.1\r\nHost: h\r\nTransfer-Encoding: chunked\r\n\r\n")
+                pump(rb"ready to go", 5)
+                c.settimeout(0.3)
+                for l in lines:
+                    for k in range(0, len(l), 512):
+                        os.write(master, l[k:k + 512]); pump(None, 0.02)
+                    os.write(master, b"\r"); pump(None, 0.25)
+                    try:
+                        while True:
+                            b = c.recv(65536)
+                            if not b:
+                                break
+                            got += b
+                    except (socket.timeout, ssl.SSLError, OSError):
+                        pass
+                try:
+                    c.sendall(b"0\r\n\r\n"); c.close()
+                except OSError:
+                    pass
+                pump(None, 0.8)
+        os.write(master, b"\x04")
+        t0 = time.time()
+        while time.time() - t0 < 6:
+            pump(None, 0.1)
+            p_, st = os.waitpid(pid, os.WNOHANG)
+            if p_:
+                pid = 0
+                break
+    finally:
+        if pid:
+            os.kill(pid, signal.SIGKILL); os.waitpid(pid, 0)
+        os.close(master); os.close(slave)
+    return got
+
+
+def logfile_stream(run):
+    """The log FILE of the real program: two runs appending to one file; long operator lines."""
+    binp = os.path.join(run.rundir, "curlrevshell")
+    rc, o, e = vlib.sh(["go", "build", "-o", binp, "."], cwd=vlib.REPO, env=vlib.GOENV, timeout=600)
+    if rc != 0:
+        run.oblige("the program builds", False, (o + e).decode(errors="replace")[-1500:])
+        return
+    d = os.path.join(run.rundir, "logrun")
+    logf = os.path.join(d, "session.json")
+    os.makedirs(d, exist_ok=True)
+    lines = [b"echo short", b"a" * 2047, b"b" * 2048, b"c" * 3000, b"echo last"]
+    got = log_session(binp, os.path.join(d, "r1"), logf, lines)
+    log_session(binp, os.path.join(d, "r2"), logf, [b"echo second-run"])
+    raw = open(logf, "rb").read() if os.path.exists(logf) else b""
+    recs, unparsable = [], []
+    for ln in raw.split(b"\n"):
+        if not ln:
+            continue
+        try:
+            recs.append(json.loads(ln))
+        except ValueError:
+            unparsable.append(ln[:120].decode(errors="replace"))
+    datas = [r.get("data") for r in recs if r.get("msg") == "Shell I/O" and r.get("direction") == "input"]
+    missing = [("%d bytes %r..." % (len(l), l[:10].decode())) for l in lines + [b"echo second-run"] if (l + b"\n").decode() not in datas]
+    problems = {}
+    if unparsable:
+        problems["lines_that_are_not_JSON"] = unparsable[:3]
+    if missing:
+        problems["entered_lines_without_an_exact_input_record"] = missing
+    if not raw.endswith(b"\n"):
+        problems["file_does_not_end_with_a_newline"] = True
+    if problems:
+        run.violation("logfile-incomplete", "the program's log file (two runs appending to it; operator lines of 10 to 3000 characters) is not a sequence of one-line "
+                      "JSON objects with an exact 'Shell I/O' input record for every line entered", {"stream": "logfile", "input": {"line_lengths": [len(l) for l in lines],
+                      "runs_on_one_log_file": 2}, "detail": problems})
+    run.oblige("log file of the real program: two runs on one -log file, lines of 10 / 2047 / 2048 / 3000 characters entered at the terminal - every line of the file "
+               "is a JSON object and every entered line has its exact input record (%d records)" % len(recs), not problems and len(recs) >= 8, json.dumps(problems)[:2000])
+    run.stream("logfile", len(recs), len(recs), "the real binary with -log under a pty, twice on the same log file; a real TLS /io shell; operator lines of 10, 2047, "
+               "2048 and 3000 characters typed into the pty", [{"records": len(recs)}])
 
 CLAUSES = {11: "C11 monitor failed: 'Shell I/O' records are not exactly the delivered lines / displayed chunks in order, an accepted stream lacks "
                "its connect or disconnect record, a refused stream (outside shutdown) lacks its single error record, or the JSON handler's "
@@ -38,6 +151,7 @@ def check(run):
                  "attempts whose client has already hung up when they reach admission (request context done beforehand) on an idle, half attached "
                  "and fully attached broker, with the right, a wrong and an empty ID: each is still either attached (and then logged) or refused "
                  "with its notice and its single error record; monitor only")
+    logfile_stream(run)
     run.assumptions += ["slog.NewJSONHandler's escaping itself is standard library; the check verifies one parsable object per line and record counts, "
                         "data fields are compared before JSON encoding"]
     run.trusted += ["harness/overlay/iobroker", "props/brokerlib.py", "coq/Model/Broker.v tied by this correspondence"]
